@@ -90,6 +90,59 @@ func (m *KVMon[K, V]) checkNav(full bool) {
 	}
 }
 
+// NavOp makes one navigation read (Min, Max, Floor or Ceiling) as a call of
+// the history, checked against the model whatever the observation schedule.
+func (m *KVMon[K, V]) NavOp() {
+	c := m.c
+	r := c.R
+	n := m.n()
+	switch r.Intn(4) {
+	case 0:
+		for _, f := range m.A.Min {
+			c.Begin(m.A.Name, "Min/Left")
+			k, v, ok := f()
+			m.checkExtreme("min", k, v, ok, 0)
+		}
+	case 1:
+		for _, f := range m.A.Max {
+			c.Begin(m.A.Name, "Max/Right")
+			k, v, ok := f()
+			m.checkExtreme("max", k, v, ok, n-1)
+		}
+	default:
+		if m.A.Floor == nil {
+			return
+		}
+		if n > 0 && r.Bool() {
+			i := r.Intn(n)
+			if r.Bool() {
+				m.probeFloorCeil(m.Mod.Ents[i].Key)
+			} else {
+				m.probeFloorCeil(m.between(i))
+			}
+		} else {
+			m.probeFloorCeil(m.D.AnyVal(r))
+		}
+	}
+}
+
+// GetKey makes one inverse lookup as a call of the history (bidirectional
+// maps); it reports whether the container has that operation.
+func (m *KVMon[K, V]) GetKey() bool {
+	if m.Inv == nil || len(m.VD) == 0 {
+		return false
+	}
+	c := m.c
+	v := m.VD[c.R.Intn(len(m.VD))]
+	c.Begin(m.A.Name, "GetKey", v)
+	k, ok := m.A.GetKey(v)
+	wk, wok := m.Inv.Get(v)
+	if ok != wok || (ok && !m.sameKey(k, wk)) {
+		c.Fail("bidi-getkey", presentClass(wok), "%s.GetKey(%v) = (%v,%v), model says (%v,%v)", m.A.Name, v, k, ok, wk, wok)
+	}
+	return true
+}
+
 // between returns a probe key adjacent to live key i (for int keys the value
 // key+3, which lies strictly between neighbours because keys are multiples of
 // 6; other key types fall back to a domain probe).
